@@ -600,3 +600,205 @@ func GenErrName(msg string) string {
 	}
 	return "other(" + msg + ")"
 }
+
+// ---------------------------------------------------------------- spellings of one mailbox (round 9)
+
+// NumRespell is the number of spelling transformations Respell knows.
+const NumRespell = 11
+
+func cutAddr(addr string) (string, string, bool) {
+	i := strings.LastIndex(addr, "@")
+	if i <= 0 || i == len(addr)-1 {
+		return "", "", false
+	}
+	return addr[:i], addr[i+1:], true
+}
+
+// Respell returns another SPELLING of the same mailbox (what a canonicalising table, an alias file
+// storing lower-case addresses, a normalising modifier hands back): transformation k, or - when it
+// leaves the string as it is - the next one that changes it.  The result differs byte-wise from
+// addr; "" if addr is not of the form local@domain.
+//
+//	0 lower-case local part      1 upper-case local part     2 lower-case domain
+//	3 upper-case domain          4 local part NFC            5 local part NFD
+//	6 domain as A-labels         7 domain as U-labels        8 trailing dot added / removed
+//	9 whole address lower-case  10 whole address upper-case
+func Respell(addr string, k int) string {
+	l, d, ok := cutAddr(addr)
+	if !ok {
+		return ""
+	}
+	for i := 0; i < NumRespell; i++ {
+		var out string
+		switch (k + i) % NumRespell {
+		case 0:
+			out = strings.ToLower(l) + "@" + d
+		case 1:
+			out = strings.ToUpper(l) + "@" + d
+		case 2:
+			out = l + "@" + strings.ToLower(d)
+		case 3:
+			out = l + "@" + strings.ToUpper(d)
+		case 4:
+			out = norm.NFC.String(l) + "@" + d
+		case 5:
+			out = norm.NFD.String(l) + "@" + d
+		case 6:
+			if a, err := idna.ToASCII(d); err == nil {
+				out = l + "@" + a
+			}
+		case 7:
+			if u, err := idna.ToUnicode(d); err == nil {
+				out = l + "@" + norm.NFC.String(u)
+			}
+		case 8:
+			if strings.HasSuffix(d, ".") {
+				out = l + "@" + strings.TrimSuffix(d, ".")
+			} else {
+				out = l + "@" + d + "."
+			}
+		case 9:
+			out = strings.ToLower(addr)
+		case 10:
+			out = strings.ToUpper(addr)
+		}
+		if _, d2, ok2 := cutAddr(out); out != "" && out != addr && ok2 && d2 != "" {
+			return out
+		}
+	}
+	return ""
+}
+
+// ShownAs: addr as a report of the given flavour legitimately shows it in an address field: the
+// local part as it is, the domain in the form the report type requires (library conversion,
+// independent of maddy's address package); "" if it cannot be shown.
+func ShownAs(utf8 bool, addr string) string {
+	l, d, ok := cutAddr(addr)
+	if !ok {
+		return ""
+	}
+	if utf8 {
+		u, err := idna.ToUnicode(d)
+		if err != nil {
+			return ""
+		}
+		return l + "@" + norm.NFC.String(u)
+	}
+	a, err := idna.ToASCII(d)
+	if err != nil {
+		return ""
+	}
+	return l + "@" + a
+}
+
+// MentionsOutside: msg contains needle at a place that is not (part of) an occurrence of one of
+// the strings in allowed.
+func MentionsOutside(msg []byte, needle string, allowed []string) bool {
+	if needle == "" || !bytes.Contains(msg, []byte(needle)) {
+		return false
+	}
+	covered := make([]bool, len(msg))
+	for _, a := range allowed {
+		if a == "" {
+			continue
+		}
+		for off := 0; ; {
+			i := bytes.Index(msg[off:], []byte(a))
+			if i < 0 {
+				break
+			}
+			for j := off + i; j < off+i+len(a); j++ {
+				covered[j] = true
+			}
+			off += i + 1
+		}
+	}
+	for off := 0; ; {
+		i := bytes.Index(msg[off:], []byte(needle))
+		if i < 0 {
+			return false
+		}
+		for j := off + i; j < off+i+len(needle); j++ {
+			if !covered[j] {
+				return true
+			}
+		}
+		off += i + 1
+	}
+}
+
+// ---------------------------------------------------------------- error texts (round 9)
+
+// NastyTexts: texts a remote server's reply (or a wrapped Go error) can carry: bare CR, CR CR LF,
+// LF CR, NUL and the other C0 controls, DEL, C1 / Unicode line separators, leading / trailing
+// white space, white space only, long single lines, long multi-line replies.  (A single line stays
+// below 900 octets: the human-readable part copies the text raw, RFC 5322's 998 limit is another
+// matter.)
+var NastyTexts = []string{
+	"bare\rCR", "CR CR LF\r\r\nnext line", "LF CR\n\rnext line", "\rleading CR", "trailing CR\r", "\r", "\n", "\r\n", "\n\n\n", "\r\r",
+	"a\rb\rc\rd", "mixed\r\n\r\n\rend\n",
+	"NUL\x00inside", "\x00", "bell\x07 backspace\x08 vt\x0b ff\x0c esc\x1b[31m us\x1f soh\x01", "DEL\x7f here", "\x7f",
+	"  leading blanks", "trailing blanks   ", "\tleading tab", "trailing tab\t", " ", "   ", " \t ",
+	"C1 NEL\u0085 and LS\u2028 and PS\u2029 stay", "много\rстрок\nтекста\x00 и ещё",
+	strings.Repeat("one long line of an error text ", 22) + "end",
+	"word of 300 octets " + strings.Repeat("x", 300) + " end",
+	strings.Repeat(strings.Repeat("reply line ", 40)+"\r\n", 6) + "last",
+	"421-style\r\n continuation with leading blank\r\n\tand tab",
+}
+
+// FlatText: the text of an error as a field value can carry it: line breaks - CR and LF in any
+// combination - and every other control character except the horizontal tab shown as a space.
+// (Compare modulo white space runs: CanonWs.)
+func FlatText(s string) string {
+	return strings.Map(func(c rune) rune {
+		if (c < 0x20 && c != '\t') || c == 0x7f {
+			return ' '
+		}
+		return c
+	}, s)
+}
+
+// ASCIIText: FlatText for a report that is limited to US-ASCII.
+func ASCIIText(s string) string {
+	return strings.Map(func(c rune) rune {
+		if c >= 0x80 {
+			return '?'
+		}
+		return c
+	}, FlatText(s))
+}
+
+// HasCtl: s has a control character other than CR, LF, HT.
+func HasCtl(s string) bool {
+	for _, c := range s {
+		if (c < 0x20 && c != '\t' && c != '\r' && c != '\n') || c == 0x7f {
+			return true
+		}
+	}
+	return false
+}
+
+// BareCR: s has a CR that is not directly followed by LF.
+func BareCR(s string) bool {
+	for i := 0; i < len(s); i++ {
+		if s[i] == '\r' && (i+1 >= len(s) || s[i+1] != '\n') {
+			return true
+		}
+	}
+	return false
+}
+
+// LooseEqual: two spellings of one mailbox in the widest sense (letter case and normalisation form
+// of the local part, letter case / label form / trailing dot of the domain ignored).  Statistics only.
+func LooseEqual(a, b string) bool {
+	la, da, ok1 := cutAddr(a)
+	lb, db, ok2 := cutAddr(b)
+	if !ok1 || !ok2 {
+		return false
+	}
+	fold := func(d string) string {
+		u, _ := idna.ToUnicode(strings.ToLower(d))
+		return strings.TrimSuffix(strings.ToLower(norm.NFC.String(u)), ".")
+	}
+	return strings.ToLower(norm.NFC.String(la)) == strings.ToLower(norm.NFC.String(lb)) && fold(da) == fold(db)
+}
